@@ -87,12 +87,23 @@ pub enum RunError {
 /// one-hour timeout fires exactly when nothing is runnable: a deadlock oracle
 /// without a wall clock.
 pub fn run_paused<T>(fut: impl Future<Output = T>) -> Result<T, RunError> {
+    // 61 is tokio's default for the current-thread scheduler
+    run_paused_ev(61, fut)
+}
+
+/// As [`run_paused`], with the number of spawned-task polls the scheduler
+/// performs before it looks at the `block_on` future (the case) again. With
+/// the default of 61 a task the engine spawns (the commit of a dropped input
+/// session) runs through all its yield points before a woken reader of the
+/// case is polled; with 1 the case is polled in between.
+pub fn run_paused_ev<T>(event_interval: u32, fut: impl Future<Output = T>) -> Result<T, RunError> {
     install_panic_hook();
     let _ = take_panics();
     let r = catch_unwind(AssertUnwindSafe(|| {
         let rt = tokio::runtime::Builder::new_current_thread()
             .enable_time()
             .start_paused(true)
+            .event_interval(event_interval)
             .build()
             .unwrap();
         let out = rt.block_on(async {
